@@ -109,7 +109,7 @@ Lemma eval_bounded cx e : prims_bounded (cx_prims cx) -> forall g t g' s, ty_exp
   match eval cx s e with Val _ v => v < W64 | Fault _ _ => True end.
 Proof.
   intros Hp.
-  induction e as [p|c| |x o c v Co IHc IHv|x v Pl IHv|o l r G IHl IHr] using expr_shape_ind; intros g t g' s Ht Hb.
+  induction e as [p|c| |x o c v Co IHc IHv|x v Pl IHv|t1 t2 v IHt IHv|o l r G IHl IHr] using expr_shape_ind; intros g t g' s Ht Hb.
   - destruct p as [b|x|n]; cbn [eval ty_expr] in *.
     + split; [exact Hb|]. destruct b; unfold W64; lia.
     + destruct (primitive_index x); cbn [res_state]; (split; [exact Hb|]); [apply read_prim_bounded; exact Hp|apply Hb].
@@ -138,6 +138,12 @@ Proof.
     rewrite eval_bind_plain by exact Pl. specialize (IHv _ _ _ s H1 Hb).
     destruct (eval cx s v) as [s1 vv|z s1]; cbn [res_state] in *; [|exact IHv]. destruct IHv as [B1 V1].
     split; [apply assign_bounded; auto|exact V1].
+  - apply ty_nest_inv in Ht. destruct Ht as (_ & g1 & H1 & H2).
+    rewrite eval_nest. specialize (IHt _ _ _ s H1 Hb).
+    destruct (eval cx s (Sexp OBind t1 t2)) as [s1 a|z s1]; cbn [res_state] in *; [|exact IHt]. destruct IHt as [B1 _].
+    specialize (IHv _ _ _ s1 H2 B1).
+    destruct (eval cx s1 v) as [s2 vv|z s2]; cbn [res_state] in *; [|exact IHv]. destruct IHv as [B2 V2].
+    destruct (bind_target (Sexp OBind t1 t2)); cbn [res_state]; split; auto. apply assign_bounded; auto.
   - apply ty_op_inv in Ht; auto. destruct Ht as (_ & tl & g1 & tr & H1 & H2).
     rewrite eval_op by exact G. specialize (IHl _ _ _ s H1 Hb).
     destruct (eval cx s l) as [s1 a|z s1]; cbn [res_state] in *; [|exact IHl]. destruct IHl as [B1 V1].
